@@ -819,6 +819,17 @@ func (env *Env) call(st *State, e CCall) Value {
 		return env.eval(st, e.Args[i])
 	}
 	switch e.Fun {
+	case "addr":
+		// addr(x): the address of a local variable of the function under proof whose address is
+		// taken in the code (so that it lives in memory)
+		if id, ok := e.Args[0].(CIdent); ok && env.fnFrame != nil {
+			for _, a := range env.fnFrame.info.varAlloc[id.Name] {
+				if rv, ok := env.fnFrame.regs[a]; ok && rv.cell == nil {
+					return Value{T: a.Type(), L: rv.L}
+				}
+			}
+		}
+		env.fail("addr: %v is not an addressable local variable", e.Args[0])
 	case "len":
 		x := arg(0)
 		switch t := x.T.Underlying().(type) {
